@@ -253,7 +253,7 @@ theorem toBits_all_iff (n raw : Nat) (h : raw < 2 ^ n) :
   rw [toBits_length, ofBits_toBits, Nat.mod_eq_of_lt h] at this
   exact this.symm
 
-theorem fieldUInt_nat (n raw : Nat) (hn : 0 < n) (h : raw < 2 ^ n) :
+theorem fieldUInt_ofNat (n raw : Nat) (hn : 0 < n) (h : raw < 2 ^ n) :
     fieldUInt (raw : Int) n = .ok (toBits n raw) := by
   have := writeUInt_ofNat [] n raw hn h
   simpa [fieldUInt] using this
@@ -358,7 +358,7 @@ theorem missingPattern_error {n : Nat} {e : Err} (h : missingPattern n = .error 
 theorem numericField_missing (scale ref : Int) (n : Nat) (hn : 0 < n) (h64 : n ≤ 64) :
     numericField .missing scale ref n = .ok (ones n) := by
   have hp : 2 ^ n - 1 < 2 ^ n := by have := Nat.two_pow_pos n; omega
-  simp only [numericField, missingPattern_ok n h64, Except.bind, fieldUInt_nat n _ hn hp, toBits_max]
+  simp only [numericField, missingPattern_ok n h64, Except.bind, fieldUInt_ofNat n _ hn hp, toBits_max]
 
 theorem numericField_value (v : Val) (scale ref q : Int) (n : Nat) (hv : v ≠ .missing)
     (hq : quantise v scale = .ok q) : numericField v scale ref n = fieldUInt (q - ref) n := by
